@@ -19,6 +19,7 @@ from __future__ import annotations
 import ast
 
 from .. import ctx
+from .. import paths
 from ..fnview import FnView
 from ..project import AnalysisError, call_name, kwarg, norm, walk_no_nested
 from ..roles import MarshalRoles
@@ -210,56 +211,116 @@ def s5(run, project):
     if f is None or g is None:
         raise AnalysisError("C09: separate_events / events_to_objs not found")
     loops = [s for s in f.body if isinstance(s, ast.For)]
-    if len(loops) != 1:
+    if len(loops) != 1 or not isinstance(loops[0].target, ast.Name):
         raise AnalysisError("C09: separate_events loop not found")
     lp = loops[0]
     ev = lp.target.id
-    acc = [s for s in f.body if isinstance(s, ast.Assign) and isinstance(s.value, ast.List) and not s.value.elts]
-    accn = acc[0].targets[0].id if acc else None
-    cut = [s for s in lp.body if isinstance(s, ast.If)]
-    ok = len(cut) == 1 and accn is not None
-    if ok:
-        conj = {norm(v) for v in (cut[0].test.values if isinstance(cut[0].test, ast.BoolOp) and isinstance(cut[0].test.op, ast.And) else [cut[0].test])}
-        ok = conj == {f"isinstance({ev}, MarshalEvent)", f"{ev}.path == ROOT_PATH", f"{accn} != []"} and \
-            [norm(x) for x in cut[0].body] == [f"yield {accn}", f"{accn} = []"] and not cut[0].orelse
-    run.ob("S5", ok, "a new message starts exactly at a MarshalEvent whose path is the root path",
-           f"cut condition is `{norm(cut[0].test) if cut else None}`", module=mod, node=cut[0] if cut else lp, func=f.name,
-           construct="separate_events cut")
-    app = [s for s in lp.body if isinstance(s, ast.Expr) and norm(s.value) == f"{accn}.append({ev})"]
-    run.ob("S5", len(app) == 1 and lp.body.index(app[0]) == len(lp.body) - 1, "every event goes into exactly one message, in order",
-           "events are not appended unconditionally after the cut test", module=mod, node=lp, func=f.name, construct="separate_events append")
-    tail = [s for s in f.body[f.body.index(lp) + 1:]]
-    ok = len(tail) == 1 and isinstance(tail[0], ast.If) and norm(tail[0].test) == f"{accn} != []" and [norm(x) for x in tail[0].body] == [f"yield {accn}"]
-    run.ob("S5", ok, "the last message is flushed", "trailing message is not yielded", module=mod, node=f, func=f.name,
-           construct="separate_events flush")
+    S = paths.Summariser(mod, f)
+    top = S.paths()
+    accs = [norm(e.targets[0]) for p in top for k, e, _ in p.effects if k == "assign" and isinstance(e.value, ast.List) and not e.value.elts]
+    if not accs:
+        raise AnalysisError("C09: separate_events accumulator (`x = []`) not found")
+    accn = accs[0]
+    run.ob("S5", norm(lp.iter) in (f.args.args[0].arg, f"iter({f.args.args[0].arg})"), "all events are scanned, in order",
+           f"the loop iterates over `{norm(lp.iter)}`", module=mod, node=lp, func=f.name, construct="separate_events source")
+    M, R, T = f"isinstance({ev}, MarshalEvent)", f"{ev}.path == ROOT_PATH", f"truthy {accn}"
+    spec = [({M: True, R: True, T: True}, "cut")]
+    cut_fx = [("yield", accn), ("assign", f"{accn} = []"), ("call", f"{accn}.append({ev})")]
+    keep_fx = [("call", f"{accn}.append({ev})")]
+    body = [sub for p in top for sub in p.loops.get(id(lp), [])]
+    seen = set()
+    for p in body:
+        key = repr(p)
+        if key in seen:
+            continue
+        seen.add(key)
+        label = " & ".join(("" if v else "not ") + a for a, v, _ in p.cond) or "always"
+        want = paths.decide(spec, "keep", p)
+        got_fx = p.effect_texts()
+        got = "cut" if got_fx == cut_fx else "keep" if got_fx == keep_fx else None
+        if got is None:
+            kind = "separate_events append" if ("call", f"{accn}.append({ev})") not in got_fx or got_fx.count(("call", f"{accn}.append({ev})")) != 1 \
+                else "separate_events cut"
+            run.ob("S5", False, f"separate_events [{label}]", f"one iteration does {got_fx}: neither `start a new message, then append` nor "
+                   "`append` (every event must go into exactly one message, in order)", module=mod, node=p.node or lp, func=f.name,
+                   construct=kind)
+            continue
+        run.ob("S5", want == {got} and p.end in ("fall", "continue"), f"separate_events [{label}]: {got}",
+               f"a new message is {'started' if got == 'cut' else 'not started'} although the spec says {sorted(want)}: messages must be cut "
+               "exactly at a MarshalEvent whose path is the root path (and never produce an empty message)", module=mod,
+               node=p.cond[-1][2] if p.cond else lp, func=f.name, construct="separate_events cut")
+        seen_m = None
+        for a_, v_, n_ in p.cond:
+            if a_ == M:
+                seen_m = v_
+            elif f"{ev}.path" in a_ and seen_m is not True:
+                run.ob("S5", False, f"separate_events [{label}]: guard order", f"`{a_}` is evaluated on an event not known to be a "
+                       "MarshalEvent (warnings / info events have no path)", module=mod, node=n_, func=f.name,
+                       construct="separate_events cut")
+    run.require(len(seen) >= 2, "C09: separate_events loop body has fewer than two paths")
+    # after the loop: the last message is flushed iff it is non-empty
+    for p in top:
+        after, hit = [], False
+        for k, e, n_ in p.effects:
+            if hit:
+                after.append((k, None if e is None else paths.text(e)))
+            if k == "loop" and n_ is lp:
+                hit = True
+        t = p.truth(T)
+        want_fx = [("yield", accn)] if t else []
+        run.ob("S5", t is not None and after == want_fx and p.end in ("fall", "return"), "the last message is flushed (when there is one)",
+               f"after the loop{' with a pending message' if t else ''} the function does {after}: trailing message is not yielded"
+               if t or t is None else f"an empty trailing message is produced ({after})", module=mod, node=p.node or f, func=f.name,
+               construct="separate_events flush")
     rp = [s for s in mod.tree.body if isinstance(s, ast.ImportFrom) and any(a.name == "ROOT_PATH" for a in s.names)]
     pm = project.module("tpmstream.common.path")
     rdef = [s for s in pm.tree.body if isinstance(s, ast.Assign) and norm(s.targets[0]) == "ROOT_PATH"]
     ok = bool(rp) and len(rdef) == 1 and norm(rdef[0].value) == "Path(PathNode(PATH_NODE_ROOT_NAME))"
     run.ob("S5", ok, "ROOT_PATH is the decoder's default root path", "ROOT_PATH definition changed", module=pm,
            node=rdef[0] if rdef else pm.tree, func="<module>", construct="ROOT_PATH")
-    # events_to_objs alternation
-    txt = norm(g)
-    V = FnView(mod, g)
-    loops = [s for s in g.body if isinstance(s, ast.For)]
-    ok = len(loops) == 1 and len(loops[0].body) == 1 and isinstance(loops[0].body[0], ast.If) and norm(loops[0].body[0].test) == "command_code is None"
-    run.ob("S5", ok, "objects alternate command / response on `command_code is None`", "alternation test changed", module=mod,
-           node=loops[0] if loops else g, func=g.name, construct="events_to_objs alternation")
-    if ok:
-        br = loops[0].body[0]
-        evv = loops[0].target.id
-        a = [norm(x) for x in br.body]
-        b = [norm(x) for x in br.orelse]
-        oka = len(a) == 3 and a[0].endswith(f"= events_to_obj({evv})") and a[1] == f"command_code = {a[0].split(' = ')[0]}.commandCode" and a[2] == f"yield {a[0].split(' = ')[0]}"
-        okb = len(b) == 3 and b[0].endswith(f"= events_to_obj({evv}, command_code=command_code)") and b[1] == f"yield {b[0].split(' = ')[0]}" and b[2] == "command_code = None"
-        run.ob("S5", oka, "a command's code is remembered for the next message", f"command branch is {a}", module=mod, node=br,
-               func=g.name, construct="events_to_objs command branch")
-        run.ob("S5", okb, "the response is built with that code, which is then forgotten", f"response branch is {b}", module=mod,
-               node=br, func=g.name, construct="events_to_objs response branch")
-    init = [s for s in g.body if isinstance(s, ast.Assign) and norm(s.targets[0]) == "command_code"]
-    run.ob("S5", len(init) == 1 and norm(init[0].value) == "None", "the first message is a command", "initial command_code is not None",
+    # events_to_objs alternation (path summaries of one loop iteration)
+    loops = [s_ for s_ in g.body if isinstance(s_, ast.For)]
+    if len(loops) != 1 or not isinstance(loops[0].target, ast.Name):
+        raise AnalysisError("C09: events_to_objs loop not found")
+    lp = loops[0]
+    evv = lp.target.id
+    G = paths.Summariser(mod, g)
+    top = G.paths()
+    src = paths.text(G.expand(lp.iter, top[0])) if top else norm(lp.iter)
+    # the loop source as seen before the loop
+    pre = paths.Summariser(mod, g).run(g.body[: g.body.index(lp)])[1]
+    if len(pre) != 1:
+        raise AnalysisError("C09: events_to_objs prologue is not straight-line")
+    src = paths.text(G.expand(lp.iter, pre[0]))
+    for k_, e_, _n in pre[0].effects:
+        if k_ == "assign" and norm(e_.targets[0]) == src:
+            src = paths.text(e_.value)
+    arg = g.args.args[0].arg
+    run.ob("S5", src in (f"list(separate_events({arg}))", f"separate_events({arg})"), "messages come from separate_events, in order",
+           f"events_to_objs iterates over `{src}`", module=mod, node=lp, func=g.name, construct="events_to_objs source")
+    init = pre[0].env.get("command_code")
+    state = "command_code"
+    run.ob("S5", init is not None and norm(init) == "None", "the first message is a command", "initial command_code is not None",
            module=mod, node=g, func=g.name, construct="events_to_objs init")
-    src = [s for s in g.body if isinstance(s, ast.Assign) and "separate_events" in norm(s.value)]
-    run.ob("S5", len(src) == 1 and norm(src[0].value) in ("list(separate_events(events))", "separate_events(events)"),
-           "messages come from separate_events, in order", "events_to_objs no longer splits with separate_events", module=mod, node=g,
-           func=g.name, construct="events_to_objs source")
+    C = f"{state} is None"
+    body = {repr(p_): p_ for t_ in top for p_ in t_.loops.get(id(lp), [])}
+    run.require(len(body) >= 2, "C09: events_to_objs loop body has fewer than two paths")
+    for p_ in body.values():
+        label = " & ".join(("" if v else "not ") + a_ for a_, v, _ in p_.cond) or "always"
+        t = p_.truth(C)
+        ys = [e for k, e in p_.effect_texts(("yield",))]
+        nxt = p_.env.get(state)
+        nxt = None if nxt is None else paths.text(nxt)
+        if t is None:
+            run.ob("S5", False, f"events_to_objs [{label}]", "objects no longer alternate command / response on `command_code is None`",
+                   module=mod, node=p_.node or lp, func=g.name, construct="events_to_objs alternation")
+        elif t:
+            cmd = f"events_to_obj({evv})"
+            run.ob("S5", ys == [cmd] and nxt == f"{cmd}.commandCode", "a command's code is remembered for the next message",
+                   f"command branch yields {ys} and leaves command_code = {nxt}", module=mod, node=p_.node or lp, func=g.name,
+                   construct="events_to_objs command branch")
+        else:
+            rsp = f"events_to_obj({evv}, command_code={state})"
+            run.ob("S5", ys == [rsp] and nxt == "None", "the response is built with that code, which is then forgotten",
+                   f"response branch yields {ys} and leaves command_code = {nxt}", module=mod, node=p_.node or lp, func=g.name,
+                   construct="events_to_objs response branch")
